@@ -47,6 +47,10 @@ fn integerise(model: &mut FileModel) {
                     if c.is_empty() {
                         c.push('0');
                     }
+                    // TRANSFAC cells are f32: integers above 2^24 are not all representable
+                    if c.parse::<u64>().map(|v| v > (1 << 24)).unwrap_or(true) {
+                        *c = "16777216".to_string();
+                    }
                 }
             }
         }
